@@ -10,8 +10,8 @@ Local Open Scope list_scope.
 
 Inductive eo := Ed (a b : nat).
 (* a queue object: queue._queue (Python order: oldest first, get_nowait takes
-   the LAST), queue._is_shutdown, queue._unfinished_tasks *)
-Inductive qo := QO (its : list event) (sh : bool) (unf : nat).
+   the LAST), queue._is_shutdown, queue._unfinished_tasks, queue.maxsize *)
+Inductive qo := QO (its : list event) (sh : bool) (unf : nat) (maxsize : nat).
 (* _RESOURCE_SUBSCRIBERS as (resource, subscriber) pairs, _SUBSCRIBER_RESOURCES
    as (subscriber, resource) pairs, _SUBSCRIPTION_QUEUES as (resource, queue
    index) pairs; all sorted, empty sets dropped *)
@@ -54,9 +54,9 @@ Definition edges_eqb (m : list edge) (o : list eo) : bool :=
 
 Definition queue_eqb (q : queue) (o : qo) : bool :=
   match o with
-  | QO its sh unf =>
+  | QO its sh unf c =>
       list_eqb event_eqb (items q) (rev its) && Bool.eqb (shut q) sh &&
-      Nat.eqb (unfinished q) unf
+      Nat.eqb (unfinished q) unf && Nat.eqb (cap q) c
   end.
 
 Fixpoint list_eqb2 {A B} (eqb : A -> B -> bool) (a : list A) (b : list B) : bool :=
